@@ -13,7 +13,7 @@ def GoodEnv (ds : List Def) (env : List OType) : Prop :=
 
 theorem define_shape {env : List OType} {d : Def} {t : OType} (h : define env d = .ok t) :
     ∃ l : Level, l.id = env.length ∧ t = l :: parentOf env d := by
-  obtain ⟨-, -, attrs, -, -, -, -, ht⟩ := define_parts h
+  obtain ⟨-, -, attrs, -, -, -, -, -, ht⟩ := define_parts h
   exact ⟨_, rfl, ht⟩
 
 theorem defineAll_good {env0 env : List OType} {ds0 ds : List Def} (h0 : GoodEnv ds0 env0)
